@@ -149,7 +149,7 @@ def main(argv=None):
     wd = tlc.workdir("C17")
     groups = ck.export("CliExport", "CliExport.cfg")
     table = {g["name"]: g["items"] for g in groups}
-    if set(table) != {"formula", "transformations", "output_options", "graphs"}:
+    if not {"formula", "transformations", "output_options", "graphs"} <= set(table):
         raise tlc.MachineryError("LibCall table export incomplete: %r" % sorted(table))
     R = Runner(ck, wd, table["graphs"])
     rng = ck.rng
